@@ -49,10 +49,11 @@ def _create_mesh(
     _max_shifts = np.asarray(max_shifts, dtype=np.float32)
     left = -shifts - _max_shifts
     right = -shifts + _max_shifts
+    # NOTE: round inward so that off-grid limits (such as 0.78) are never exceeded.
     local_shifts = [
         [
-            int(round(max(float(shiftl), -1.0) * UPSAMPLE)),
-            int(round(min(float(shiftr), 1.0) * UPSAMPLE)),
+            int(np.ceil(max(float(shiftl), -1.0) * UPSAMPLE - 1e-3)),
+            int(np.floor(min(float(shiftr), 1.0) * UPSAMPLE + 1e-3)),
         ]
         for shiftl, shiftr in zip(left, right)
     ]
